@@ -201,6 +201,8 @@ def make_canary(text, which):
             continue
         if any("external_body" in a or "verifier::external" in a for a in f["attrs"]):
             continue
+        if f["name"].split("::")[-1].startswith("kf_"):
+            continue   # known-finding wrappers fail by design; with one error reported per function the canary would be masked
         body_txt = rl.text_of(toks, f["body_open"], f["last_tok"])
         if "vx:nocanary-all" in body_txt or ("vx:nocanary-" + which) in body_txt:
             continue
@@ -389,7 +391,8 @@ class VerusUnit:
                     f.write(ctext)
                 cmd = list(base)
                 cmd[1] = os.path.basename(cpath)
-                cmd += ["--multiple-errors", "0"]
+                # a canary only has to be *unprovable*: a small resource limit is enough (running out of it also counts)
+                cmd += ["--multiple-errors", "0", "--rlimit", "3"]
                 can[which] = (cmd, cmap, names, _canary_cache_key(ctext))
         with ThreadPoolExecutor(max_workers=3) as ex:
             fut_main = ex.submit(_run, main_cmd, self.outdir, timeout)
@@ -410,12 +413,23 @@ class VerusUnit:
         for which, (crc, cout, cerr, cwall) in can_out.items():
             cmd, cmap, names, _key = can[which]
             hit = set()
+            try:
+                _t, cfns = fn_spans(open(os.path.join(self.outdir, cmd[1])).read())
+            except OSError:
+                cfns = []
             tool = []
             for d in parse_diags(cerr):
                 if d.get("level") != "error":
                     continue
                 msg_ = d.get("message", "")
                 if msg_.startswith("aborting due to"):
+                    continue
+                if RLIMIT_RE.search(msg_):
+                    # the solver gave up before proving `false`: the canary was not provable
+                    for sp in d.get("spans", []):
+                        for fi in cfns:
+                            if fi["first"] <= sp["line_start"] <= fi["last"]:
+                                hit.add(fi["name"])
                     continue
                 if not any(pat in msg_ for pat, _k in OBLIGATION_MSG):
                     tool.append(msg_[:200])
